@@ -50,7 +50,7 @@ def catalogue(K, thorough=False):
             S.GRP_BLOCKED(K), S.GRPBATCH(K), S.EMPTYBATCH(K), S.TWOSRC(K), S.GATE_NONE(K), S.DELAY01_LONG(0),
             S.MAINT2_SCRIPT(K), S.GRPIN(K), S.RES3(K), S.BLOCKED_OUT_SCRIPT(K), S.BUFGATE(K),
             S.BATCH_DIRECT(K, pattern=(2, 2, None), size=3, cap=3, sink_cycle=2),
-            S.BATCH(K, size=2, cap=6, sink_cycle=2), S.BLOCK_SCRIPT(K), S.BUDGET(K, budget=0), S.BATCHSLOW(K), S.RES3L(K), S.LOOP(K), S.GRPPASS(K), S.BUF2_SCRIPT(K), S.EMPTYBATCH_SCRIPT(K)]
+            S.BATCH(K, size=2, cap=6, sink_cycle=2), S.BLOCK_SCRIPT(K), S.BUDGET(K, budget=0), S.BATCHSLOW(K), S.RES3L(K), S.LOOP(K), S.GRPPASS(K), S.BUF2_SCRIPT(K), S.EMPTYBATCH_SCRIPT(K), S.BLOCK0(K)]
     return rows
 
 
@@ -235,7 +235,7 @@ class C08(Check):
                  S.BATCHGATE(K), S.BATCH_DIRECT(K), S.GATE(K), S.GATE_NONE(K), S.GRPBATCH(K), S.GRP_BLOCKED(K),
                  S.FANFAIL(2), S.GRPIN(K), S.REGRADE(K), S.FANGATE(2), S.REENT(K), S.REENT(K, src_cycle=1), S.GRP2(K, horizon=hg),
                  S.NEST_MID(K, horizon=hg), S.NEST_OUT(K, horizon=hg), S.BLOCK(K), S.BATCH(K), S.REWIRE(K), S.REWIRE2(K + 1), S.GATEGRP(K),
-                 S.GRPPASS(K), S.NEST_PASS(K), S.FANTOGGLE(K), S.FANOUT(K + 1)]
+                 S.GRPPASS(K), S.NEST_PASS(K), S.FANTOGGLE(K), S.FANOUT(K + 1), S.BLOCK0(K)]
         return _line_jobs(specs, ['route'], tier) + _line_jobs([S.NESTBATCH(K)], ['route', 'nesthistory'], tier) + topo_jobs(['route'], tier)
 
 
